@@ -723,8 +723,10 @@ fn candidates(plan: &Value) -> Vec<Value> {
             Value::Object(_) | Value::Array(_) => push(Value::Null),
             Value::String(s) if !s.is_empty() => {
                 push(json!(""));
-                if s.len() > 1 {
-                    push(json!(s[..s.len() / 2].to_string()));
+                if s.chars().count() > 1 {
+                    // halve by characters: plans hold multi-byte strings (user names, passwords)
+                    let half: String = s.chars().take(s.chars().count() / 2).collect();
+                    push(json!(half));
                 }
             }
             _ => {}
